@@ -174,6 +174,10 @@ func verifC08Handshake() {
 	consumed := int64(verifChoose("groupConsumed", maxSeq+2)) - 1 // -1..4
 	acked := int64(verifChoose("groupAcked", maxSeq+2)) - 1
 	verifAssume(acked <= consumed)
+	// single-fault pre-states: either the follower really holds what the leader counts as acknowledged
+	// (the leader may have lost its tail), or the leader still holds what it handed out (the follower
+	// may have lost its log)
+	verifAssume(acked <= fa || consumed <= la)
 	p := verifSetup(la, fa, consumed, acked)
 	acked = p.cg.AcknowledgedSeq()
 	ready := p.rr.IsReady()
@@ -194,8 +198,6 @@ func verifC08Handshake() {
 		if !p.rr.IsReady() || !p.rr.Connect() {
 			continue
 		}
-		seq := p.rr.channel.ConsumerGroup.(interface{ consume() int64 })
-		_ = seq
 		idx := p.cg.ConsumedSeq() + 1
 		if idx > p.leader.Queue().AppendedSeq() {
 			break
@@ -223,3 +225,7 @@ func verifC08Reach() {
 	x := verifRange("x", 0, 10)
 	verifAssert(x != 3, "reach")
 }
+
+// serialisation of the replica state into the stream's metadata is not the subject (stubs)
+func verifStubJSONMarshal(v interface{}) []byte { return []byte("{}") }
+func verifStubOutgoingCtx(ctx context.Context, kv ...string) context.Context { return ctx }
